@@ -21,6 +21,10 @@ type BufConn struct {
 	local   net.Addr
 	remote  net.Addr
 
+	// OnWrite, if set, runs (outside the lock) before the i-th Write of this end: a hook for doing something
+	// exactly while the endpoint is in the middle of an exchange
+	OnWrite func(i int)
+
 	tapMu     sync.Mutex
 	WriteLog  [][]byte // every Write of this end, in order
 	ReadCalls int
@@ -66,6 +70,12 @@ func (c *BufConn) Read(p []byte) (int, error) {
 }
 
 func (c *BufConn) Write(p []byte) (int, error) {
+	if c.OnWrite != nil {
+		c.mu.Lock()
+		i := c.WriteCalls
+		c.mu.Unlock()
+		c.OnWrite(i)
+	}
 	c.mu.Lock()
 	c.WriteCalls++
 	if *c.closedR {
